@@ -279,6 +279,20 @@ func (r *Replayer) runQuery(k int, c *Concrete, q *Query) {
 				}
 			}
 		}
+		// the order of the items of a request is the client's business: the specification's per-item verdicts go with their
+		// items and its overall verdict (the worst one) does not depend on the order - as sent, reversed, or rotated
+		if n := len(a.Items); n > 1 && len(exp.Items) == n {
+			switch (r.cur + k) % 3 {
+			case 1:
+				for i, j := 0, n-1; i < j; i, j = i+1, j-1 {
+					a.Items[i], a.Items[j] = a.Items[j], a.Items[i]
+					exp.Items[i], exp.Items[j] = exp.Items[j], exp.Items[i]
+				}
+			case 2:
+				a.Items = append(a.Items[1:], a.Items[0])
+				exp.Items = append(exp.Items[1:], exp.Items[0])
+			}
+		}
 		req := make([]domains.MerkleRootConfirmationRequestItem, len(a.Items))
 		for i, it := range a.Items {
 			req[i] = domains.MerkleRootConfirmationRequestItem{MerkleRoot: r.rootStr(c, it[0]), BlockHeight: int32(it[1])}
